@@ -11,6 +11,10 @@ CHECKS = {
  "C01": (E1, "Every message sequence of length 1-2 (thorough: 3 over a sub-alphabet) over a 16-letter alphabet of single/batch/call/notification/invalid/duplicate/unknown members, under every schedule within the budgets; exactly-once, correlation by token, array shape, order, after-all-handlers and silence-at-quiescence are judged on each execution.", "vs shims faithful; data-race freedom; alphabets and bounds as reported", "DESIGN.md §5 C01"),
  "C06": (E1, "N in 1..3 slots, 1..N+2 gated calls as one batch or single messages (optionally with rpc.serverInfo); a controller opens gates in every order (free explorer choice) and the running set is compared with min(N, unfinished) at every quiescent point and with N at every handler entry, under every schedule within the budgets; cancellation-while-waiting and the Concurrency<1 option mapping included.", "vs shims faithful; quiescence is exact under the cooperative scheduler; bounds as reported", "DESIGN.md §5 C06"),
  "C07": (E1, "All stepped histories up to length 3 (thorough 5) over {call(id in {1,2}, method in slow/fast/err/unknown/rpc.*), in-batch duplicate, CancelRequest(1,2,3), release, Stop, base-context end} are enumerated (the operation is a free explorer choice), each under every schedule within the budgets, and every reply, handler context observation and reserved-id snapshot is compared with a reference model of 'ids in flight'.", "vs shims faithful; reserved ids read by reflection from Server.used (degrades to reply-level rules if renamed)", "DESIGN.md §5 C07"),
+ "C04": (E1, "2-3 concurrent Calls or one Batch[call,note,call] against a raw peer whose reply stream is enumerated: every permutation of the replies (scenario parameter) x every grouping into arrays/objects x one noise item (duplicate, unknown id, bad version, no id, notification, callback request with the same id text, string/float id) at every position (free explorer choices), each under every schedule within the budgets of reader, per-message delivery goroutines and callers.", "vs shims faithful; data-race freedom; bounds as reported", "DESIGN.md §5 C04"),
+ "C05": (E1, "One operation (Call, CallResult, Batch, Notify) and 1-3 events from {reply, cancel, deadline, Close, peer EOF, Recv error, malformed record, Send fault, server callback}, every start order a scenario, every schedule within the budgets; exactly-once return, admissibility of the result w.r.t. the causes that had occurred, OnCancel/OnStop counts, Close-after-callbacks, nothing pending, no thread left.", "vs shims faithful; the peer closes its end after seeing EOF; deadline context implements AfterFunc so no hidden goroutine exists", "DESIGN.md §5 C05"),
+ "C09": (E1, "Outside, handler-issued and notification-handler-issued Callbacks / Notify against a raw peer whose answers are scripted (in order, reversed, batched, duplicated, unsolicited, error, late after context end, none), with context cancellation, Stop, and the peer's own call using the colliding id 1, under every schedule within the budgets.", "vs shims faithful; bounds as reported", "DESIGN.md §5 C09"),
+ "C10": (E1, "A monitor inside the harness channel adds a scheduling point between entry and exit of Send/Recv/Close, so any two calls the library does not mutually exclude are observed overlapping in some explored schedule; server (batches, parse error, Notify, Callback, Stop, restart) and client (callers, callback reply, Close) workloads.", "vs shims faithful; workloads as listed; bounds as reported", "DESIGN.md §5 C10"),
 }
 ALL = [json.loads(l)["id"] for l in open(os.path.join(HERE, "properties.jsonl"))]
 PENDING = "check not built yet (work in progress in the order of DESIGN.md §10); nothing is claimed for it"
